@@ -1001,6 +1001,25 @@ func c13Run(c core.Case, env *core.Env) core.Result {
 			if err == nil || al != nil {
 				r.Fail("mta-wc-wrong-point", "MtAwc accepted a public point B != b*G")
 			}
+			// the same wrong multiplier, answered by the variant WITHOUT check and presented to the with-check receiver as
+			// a proof whose U component is absent (only the Go API can carry that: the wire form always has a U). Whatever
+			// the receiver does (error, panic), it must not hand out a share
+			if cA, pf, e0 := mta.AliceInit(ec, pkA, a, B.NTildei, B.H1i, B.H2i, rand.Reader); e0 == nil {
+				b2 := new(big.Int).Add(new(big.Int).Mod(b, new(big.Int).Sub(q, big2)), big1)
+				if _, cB, _, piB, e1 := mta.BobMid(sess, ec, pkA, pf, b2, cA, A.NTildei, A.H1i, A.H2i, B.NTildei, B.H1i, B.H2i, rand.Reader); e1 == nil {
+					var share *big.Int
+					var e2 error
+					pan, _, _ := guard(func() {
+						share, e2 = mta.AliceEndWC(sess, ec, pkA, &mta.ProofBobWC{ProofBob: piB, U: nil}, Bp, cA, cB, A.NTildei, A.H1i, A.H2i, skA)
+					})
+					if !pan && e2 == nil && share != nil {
+						r.Fail("mta-wc-downgrade", "AliceEndWC handed out a share for a without-check proof presented without its U component although B != b'*G")
+					} else {
+						r.Count("alterations_refused", 1)
+						r.Count("wc_downgrades_refused", 1)
+					}
+				}
+			}
 		}
 		r.NonTrivial = true
 		if c.P.Str("a") == "q-1" && c.P.Str("b") == "q-1" {
